@@ -265,7 +265,7 @@ def check_property(pid, tier, seed, shared=None):
         ev['coverage']['tightness_mutants'] = tt
         ev['coverage']['seeded_changes_regression'] = thorough.seeds(pid, workers=3)
         from . import automut
-        ev['coverage']['systematic_mutants'] = automut.for_property(G, pid, cap=48, workers=4, seed=int(seed or 0))
+        ev['coverage']['systematic_mutants'] = automut.for_property(G, pid, cap=24, workers=5, seed=int(seed or 0))
         # Kani leaves: complete (loop-free, full-domain) proofs on the compiled code; a failing one is a violation of C05/C01
         if pid in ('C05', 'C01') and extra.get('kani_failed'):
             for h in extra['kani_failed']:
